@@ -246,7 +246,7 @@ func c15ImplStep(p *p2p.Peer) (ev string, cont bool) {
 		}
 		if p.VerifPending() > before {
 			m, _ := p.ReadMsg()
-			return fmt.Sprintf("msg:%d:%d", uint32(m.Code), len(m.Content))
+			return fmt.Sprintf("msg:%d:%d:%d", uint32(m.Code), len(m.Content), c15Chk(m.Content))
 		}
 		return "hb"
 	})
@@ -254,6 +254,15 @@ func c15ImplStep(p *p2p.Peer) (ev string, cont bool) {
 		return "panic:" + c15PanicSite(msg), false
 	}
 	return out, out == "hb" || strings.HasPrefix(out, "msg:")
+}
+
+// position-sensitive checksum of a payload, same as Frame.chk in the model (ties the payload bytes)
+func c15Chk(b []byte) uint32 {
+	h := uint64(7)
+	for _, x := range b {
+		h = (h*31 + uint64(x)) % 4294967296
+	}
+	return uint32(h)
 }
 
 func c15ImplRun(chunks [][]byte) string {
@@ -283,8 +292,12 @@ func c15ImplHs(chunks [][]byte) string {
 				return "need-more"
 			case p2p.ErrUnavailablePackage:
 				return "err:read-unavailable"
+			case ecies.ErrInvalidMessage:
+				return "err:ecies-msg"
+			case ecies.ErrInvalidPublicKey:
+				return "err:ecies-key"
 			}
-			return "err:ecies"
+			return "err:ecies-other(" + err.Error() + ")"
 		}
 		return fmt.Sprintf("ok:%d", len(buf))
 	})
@@ -473,11 +486,39 @@ func c15EciesCraft(pub *ecies.PublicKey, ct []byte, goodTag bool) []byte {
 
 func c15HsWrap(c []byte) []byte { return append(c15Hdr(uint32(len(c))), c...) }
 
+// pointOk / macOk of an ECIES envelope computed from its BYTES with the standard library (crypto/elliptic
+// on the curve, SHA-256 KDF, HMAC) and the server key — not from what the generator believes it built and
+// not through ecies.Decrypt.  These are the values fed to the model's uninterpreted predicates.
+func c15EciesFlags(env []byte) (pointOk, macOk bool) {
+	if len(env) < 65+32 {
+		return false, false
+	}
+	curve := crypto.S256()
+	x, y := elliptic.Unmarshal(curve, env[:65])
+	if x == nil || !curve.IsOnCurve(x, y) {
+		return false, false
+	}
+	sx, _ := curve.ScalarMult(x, y, c15Prv.D.Bytes())
+	z := make([]byte, 32)
+	sb := sx.Bytes()
+	copy(z[32-len(sb):], sb)
+	h := sha256.New()
+	h.Write([]byte{0, 0, 0, 1})
+	h.Write(z)
+	K := h.Sum(nil)
+	h.Reset()
+	h.Write(K[16:])
+	Km := h.Sum(nil)
+	mac := hmac.New(sha256.New, Km)
+	mac.Write(env[65 : len(env)-32])
+	return true, hmac.Equal(mac.Sum(nil), env[len(env)-32:])
+}
+
 type c15HsCase struct {
-	stream   []byte
-	point    bool
-	mac      bool
-	class    string
+	stream []byte
+	point  bool
+	mac    bool
+	class  string
 }
 
 func c15GenHs(c *Ctx, pub *ecies.PublicKey) c15HsCase {
@@ -536,25 +577,29 @@ func c15B(b bool) string {
 // ---------------------------------------------------------------- handler environment
 
 type c15Chain struct {
-	calls   int64
-	height  uint32
-	known   map[common.Hash]bool
-	confirm int64
-	misses  int64 // lookups of the first missing height
-	runaway int64 // respBlocks goroutines stopped by the stub
-	guard   bool  // stop runaway respBlocks goroutines (fuzz instance only)
+	calls    int64
+	height   uint32
+	known    map[common.Hash]bool
+	confirm  int64
+	inserted int64
+	misses   int64 // lookups of the first missing height
+	runaway  int64 // respBlocks goroutines stopped by the stub
+	guard    bool  // stop runaway respBlocks goroutines (fuzz instance only)
 }
 
 func (bc *c15Chain) blk(h uint32) *types.Block {
 	return &types.Block{Header: &types.Header{Height: h, Time: 1600000000 + h}}
 }
-func (bc *c15Chain) InsertBlock(block *types.Block) error { return nil }
+func (bc *c15Chain) InsertBlock(block *types.Block) error {
+	atomic.AddInt64(&bc.inserted, 1)
+	return nil
+}
 func (bc *c15Chain) InsertConfirms(height uint32, blockHash common.Hash, sigList []types.SignData) {
 	atomic.AddInt64(&bc.confirm, 1)
 }
-func (bc *c15Chain) IsInBlackList(b *types.Block) bool  { return false }
-func (bc *c15Chain) Genesis() *types.Block              { return bc.blk(0) }
-func (bc *c15Chain) HasBlock(hash common.Hash) bool     { return bc.known[hash] }
+func (bc *c15Chain) IsInBlackList(b *types.Block) bool            { return false }
+func (bc *c15Chain) Genesis() *types.Block                        { return bc.blk(0) }
+func (bc *c15Chain) HasBlock(hash common.Hash) bool               { return bc.known[hash] }
 func (bc *c15Chain) GetBlockByHash(hash common.Hash) *types.Block { return nil }
 func (bc *c15Chain) GetBlockByHeight(height uint32) *types.Block {
 	atomic.AddInt64(&bc.calls, 1)
@@ -577,6 +622,7 @@ func (bc *c15Chain) StableBlock() *types.Block  { return bc.blk(bc.height - 1) }
 type c15Pool struct{}
 
 func (c15Pool) GetTxs(time uint32, size int) types.Transactions { return nil }
+
 // AddTx refuses: on success handleTxsMsg publishes the tx to pm.txCh, which only a started
 // txConfirmLoop drains; with no consumer subscribe.Send spins forever holding the router's read lock
 // and the next NewProtocolManager (Sub = write lock) never returns — a harness artifact, not a finding.
@@ -593,20 +639,26 @@ type c15Peer struct {
 	writes int64
 }
 
-func (p *c15Peer) ReadMsg() (*p2p.Msg, error)                   { return nil, io.EOF }
-func (p *c15Peer) WriteMsg(code p2p.MsgCode, msg []byte) error  { atomic.AddInt64(&p.writes, 1); return nil }
-func (p *c15Peer) SetWriteDeadline(duration time.Duration)      {}
-func (p *c15Peer) RNodeID() *p2p.NodeID                         { return &p.id }
-func (p *c15Peer) RAddress() string                             { return "1.2.3.4:7001" }
-func (p *c15Peer) LAddress() string                             { return "127.0.0.1:7001" }
+func (p *c15Peer) ReadMsg() (*p2p.Msg, error) { return nil, io.EOF }
+func (p *c15Peer) WriteMsg(code p2p.MsgCode, msg []byte) error {
+	atomic.AddInt64(&p.writes, 1)
+	return nil
+}
+func (p *c15Peer) SetWriteDeadline(duration time.Duration)          {}
+func (p *c15Peer) RNodeID() *p2p.NodeID                             { return &p.id }
+func (p *c15Peer) RAddress() string                                 { return "1.2.3.4:7001" }
+func (p *c15Peer) LAddress() string                                 { return "127.0.0.1:7001" }
 func (p *c15Peer) DoHandshake(*ecdsa.PrivateKey, *p2p.NodeID) error { return nil }
-func (p *c15Peer) Run() error                                   { return nil }
-func (p *c15Peer) NeedReConnect() bool                          { return false }
-func (p *c15Peer) SetStatus(status int32)                       {}
-func (p *c15Peer) Close()                                       {}
+func (p *c15Peer) Run() error                                       { return nil }
+func (p *c15Peer) NeedReConnect() bool                              { return false }
+func (p *c15Peer) SetStatus(status int32)                           {}
+func (p *c15Peer) Close()                                           {}
 
 func c15NewPM(dir string) (*network.ProtocolManager, *c15Chain, *network.VerifPeer) {
 	bc := &c15Chain{height: 9, known: map[common.Hash]bool{}}
+	for _, h := range c15Known {
+		bc.known[h] = true
+	}
 	dm := deputynode.NewManager(5, c15NoBlocks{})
 	dm.SaveSnapshot(0, types.DeputyNodes{&types.DeputyNode{
 		MinerAddress: common.BigToAddress(big.NewInt(77)),
@@ -684,9 +736,17 @@ func c15Enc(v interface{}) []byte {
 	return b
 }
 
+// a few hashes the stub chain "has" (HasBlock true): the insertBlock arm of rcvBlockLoop and the known-block
+// arm of handleConfirmMsg are reached through them
+var c15Known = []common.Hash{{0xaa, 1}, {0xaa, 2}, {0xaa, 3}}
+
 func c15Hash(c *Ctx) common.Hash {
 	var h common.Hash
-	if c.Rnd.Intn(4) != 0 {
+	switch c.Rnd.Intn(5) {
+	case 0:
+	case 1:
+		h = c15Known[c.Rnd.Intn(len(c15Known))]
+	default:
 		c.Rnd.Read(h[:])
 	}
 	return h
@@ -970,10 +1030,15 @@ func c15Mutate(c *Ctx, b []byte) []byte {
 
 // ---------------------------------------------------------------- main
 
-func c15(c *Ctx) {
+func c15Keys() {
 	c15Prv, _ = crypto.ToECDSA(common.FromHex("0x9c3c4a327ce214f0a1bf9cfa756fbf74f1c7322399ffff925efd8c15c49953eb"))
 	c15CliPrv, _ = crypto.ToECDSA(common.FromHex("0xc21b6b2fbf230f665b936194d14da67187732bf9d28768aef1a3cbb26608f8aa"))
 	deputynode.SetSelfNodeKey(c15Prv)
+}
+
+func c15(c *Ctx) {
+	c15Keys()
+	child := c15StartChild(c) // the close hammer / livelock / leak probes run in a child process, in parallel
 	srvPub := ecies.ImportECDSAPublic(&c15Prv.PublicKey)
 
 	// (0) constants, read from the code
@@ -1088,17 +1153,21 @@ func c15(c *Ctx) {
 		return m1.TotalAlloc - m0.TotalAlloc
 	}
 	const mib = 1 << 20
-	for _, declared := range []int{mib + 4096, 2*mib + 4096, 3 * mib} {
+	for _, declared := range []int{mib + 4096, 2*mib + 4096, 3 * mib, mib + 4096 + 7, 2*mib + 9} {
 		for _, full := range []bool{false, true} {
 			declared := declared
-			if full {
+			if full && declared%16 < 7 {
 				declared = declared / 16 * 16
-			}
+			} // the two last sizes stay unaligned: AesDecrypt refuses them before allocating its buffer
 			provided := 0
 			stream := c15Hdr(uint32(declared))
 			if full {
 				provided = declared
-				stream = append(stream, c15CBCEnc(make([]byte, declared))...)
+				if declared%16 == 0 {
+					stream = append(stream, c15CBCEnc(make([]byte, declared))...)
+				} else {
+					stream = append(stream, make([]byte, declared)...)
+				}
 			}
 			var ev string
 			conn := &c15Conn{chunks: [][]byte{stream}}
@@ -1106,9 +1175,13 @@ func c15(c *Ctx) {
 			got := measure(func() { ev, _ = c15ImplStep(p) })
 			c.Op(fmt.Sprintf("allocz %d %d", declared, provided), fmt.Sprintf("%s mib=%d", ev, got/mib))
 			c.Count("alloc-probe")
-			bound := uint64(6 + 2*int(params.MaxPackageLength))
-			if got > bound+65536 {
-				c15Fail(c, "c15/frame-alloc", fmt.Sprintf("one frame step allocated %d bytes > 6+2*MaxPackageLength", got), nil)
+			// tight: header + content buffer (+ decryption buffer when the frame is complete and aligned) + 64 KiB slack
+			bound := uint64(6 + declared + 65536)
+			if full && declared%16 == 0 {
+				bound += uint64(declared)
+			}
+			if got > bound {
+				c15Fail(c, "c15/frame-alloc", fmt.Sprintf("one frame step (declared %d, complete=%v) allocated %d bytes > %d", declared, full, got, bound), nil)
 			}
 		}
 	}
@@ -1132,6 +1205,14 @@ func c15(c *Ctx) {
 	for it := 0; it < nHs; it++ {
 		hc := c15GenHs(c, srvPub)
 		c.Count("hs:" + hc.class)
+		if len(hc.stream) >= 6+98 && (hc.stream[6] == 2 || hc.stream[6] == 3 || hc.stream[6] == 4) {
+			pOk, mOk := c15EciesFlags(hc.stream[6:])
+			if pOk != hc.point || (pOk && mOk != hc.mac) {
+				c15Fail(c, "c15/generator-belief", fmt.Sprintf("class %s: generator believed point=%v mac=%v, the bytes say point=%v mac=%v", hc.class, hc.point, hc.mac, pOk, mOk), nil)
+			}
+			hc.point, hc.mac = pOk, mOk
+			c.Count("hs-flags-from-bytes")
+		}
 		out := c15ImplHs([][]byte{hc.stream})
 		c.Op(fmt.Sprintf("hs %s %s %s", c15B(hc.point), c15B(hc.mac), c15Hex(hc.stream)), out)
 		c.Count("hs-out:" + strings.SplitN(out, ":", 2)[0])
@@ -1401,6 +1482,9 @@ func c15(c *Ctx) {
 		}
 	}
 
-	// (7) dropping the connection from several goroutines at once: source facts + runtime hammer (c15_close.go)
-	c15CloseChecks(c)
+	// (7) connection life cycle: deadline, proportion, back-pressure, floods, protocol handshake (c15_conn.go)
+	c15ConnChecks(c, dir)
+	// (8) T2 inventories + the child's results (c15_sites.go, c15_close.go)
+	c15SiteChecks(c)
+	c15CloseChecks(c, child)
 }
